@@ -524,7 +524,7 @@ def corr_vmec(rng, objs):
                     if mm and ('axis_' + nm) in blk:
                         fv = [float(t) for t in mm.group(1).split()]
                         mv = [unbits(x) for x in blk['axis_' + nm]]
-                        if len(fv) != len(mv) or any(abs(a - c) > 1e-7 * (abs(c) + 1e-30) + 1e-300 for a, c in zip(fv, mv)):
+                        if len(fv) != len(mv) or any(abs(a - c) > 6e-9 * max(1.0, max(abs(x) for x in mv)) for a, c in zip(fv, mv)):   # numpy prints 8 decimals
                             bad.append('axis values ' + nm)
                 fl, fv = [], []
                 for l in txt.splitlines():
